@@ -1870,3 +1870,80 @@ func init() {
 			return obs
 		}})
 }
+
+// FORMALS.key-marker-not-skipped — C01 (application with keyword parameters): Go code that
+// forwards a function's formals into a call form it builds (compose) must pass the formals
+// after &key WITH their keywords.  An arm that merely skips the &key marker and carries on
+// hands the keyword parameters' values over positionally, and the callee refuses every call
+// ("argument is not a keyword").  &optional may be skipped: optional arguments are positional.
+func init() {
+	register(&Rule{ID: "FORMALS.key-marker-not-skipped", Floor: 1,
+		Doc: "in every loop of the kernel that walks a list of formals and appends the symbols to a call form it is building, the arm that recognises the &key marker (a comparison with KeyArgSymbol) does more than `continue`: it records that the keyword section has begun (a flag, a mode) or emits the keywords itself, so that the formals after it reach the callee as `:name value` pairs — compose of a function with keyword parameters then works like the function itself",
+		Run: func(c *Ctx) []Obligation {
+			const rid = "FORMALS.key-marker-not-skipped"
+			keySym := c.Pkg("lisp").Types.Scope().Lookup("KeyArgSymbol")
+			if keySym == nil {
+				return []Obligation{anchorMissing(rid, "lisp.KeyArgSymbol")}
+			}
+			var obs []Obligation
+			for _, u := range c.Funcs(isKernel) {
+				if u.Decl == nil || u.Decl.Body == nil {
+					continue
+				}
+				info := u.Pkg.TypesInfo
+				ord := &ordinal{}
+				ast.Inspect(u.Decl.Body, func(n ast.Node) bool {
+					var body *ast.BlockStmt
+					switch x := n.(type) {
+					case *ast.RangeStmt:
+						body = x.Body
+					case *ast.ForStmt:
+						body = x.Body
+					}
+					if body == nil {
+						return true
+					}
+					// the loop builds a call: it appends to the Cells of some value
+					builds := false
+					ast.Inspect(body, func(m ast.Node) bool {
+						if as, ok := m.(*ast.AssignStmt); ok && len(as.Rhs) == 1 {
+							if ce, ok := ast.Unparen(as.Rhs[0]).(*ast.CallExpr); ok {
+								if id, ok := ast.Unparen(ce.Fun).(*ast.Ident); ok && id.Name == "append" && len(ce.Args) >= 2 {
+									if se, ok := ast.Unparen(ce.Args[0]).(*ast.SelectorExpr); ok && se.Sel.Name == "Cells" {
+										builds = true
+									}
+								}
+							}
+						}
+						return true
+					})
+					if !builds {
+						return true
+					}
+					for _, st := range body.List {
+						is, ok := st.(*ast.IfStmt)
+						if !ok {
+							continue
+						}
+						be, ok := ast.Unparen(is.Cond).(*ast.BinaryExpr)
+						if !ok || be.Op != token.EQL || (identObj(info, be.X) != keySym && identObj(info, be.Y) != keySym) {
+							continue
+						}
+						construct := ord.next("the &key arm of a call-building loop")
+						onlyContinue := len(is.Body.List) == 1
+						if onlyContinue {
+							br, isBr := is.Body.List[0].(*ast.BranchStmt)
+							onlyContinue = isBr && br.Tok == token.CONTINUE
+						}
+						if onlyContinue {
+							obs = append(obs, mkOb(c, rid, u, construct, is, Violated, "the &key marker is skipped and the formals after it are appended to the call like positional ones: the callee receives the keyword parameters' VALUES without their keywords — (compose identity g) with g = (lambda (&key a b) …) fails on every call with `argument is not a keyword`", true))
+						} else {
+							obs = append(obs, mkOb(c, rid, u, construct, is, Proved, "the arm records the start of the keyword section", true))
+						}
+					}
+					return true
+				})
+			}
+			return obs
+		}})
+}
